@@ -65,8 +65,21 @@ def run(scn, seed):
             # the application closes the server itself, twice
             sched.park(("app-close",))
             try:
-                for _ in range(scn.get("closes", 2)):
+                for k in range(scn.get("closes", 2)):
                     srv.close()
+                    if k == 0 and scn.get("flood"):
+                        # the Remote Adapter is not stopped by close(): it keeps reporting (failure notifications are enqueued
+                        # whatever is subscribed) into a queue nobody reads any more — more lines than a bounded queue would hold
+                        q = getattr(getattr(getattr(srv, "_request_manager", None), "_reply_sender", None), "_send_queue", None)
+                        bound = getattr(q, "maxsize", 0) or 0           # sizing of the scenario only
+                        for j in range(bound + 1 if bound else scn["flood"]):
+                            if kind == "data":
+                                lsn = getattr(srv._adapter, "l", None)
+                                if lsn is None:
+                                    break                                   # closed before the init request was processed
+                                lsn.failure(RuntimeError("still alive %d" % j))
+                            else:
+                                srv._send_reply("late%d" % j, "NUS|V")
             except BaseException as e:
                 if isinstance(e, (shim.Abort, shim.ProcessExit)):
                     raise
